@@ -5,7 +5,7 @@ exception.
 
 import ast
 
-from .. import AnalysisError, flow
+from .. import AnalysisError, flow, rx
 from ..fold import is_unknown, RegexVal
 from ..srcmodel import walk_local, norm, dotted, guards, enclosing_stmt, parent, facts_at, literals
 from . import common
@@ -528,6 +528,33 @@ def _int_sites(ctx):
                 why = 'digit string produced in this function'
                 if arg.id == 'text':
                     safe, why = True, 'str_to_value wraps int() in try'  # covered by in_try normally
+            if not safe and fi.node.name == 'unpack_twprge':
+                # the number groups of the OCR pattern accept look-alike characters; unguarded int()
+                # is fine only if the conversion table maps every one of them to a digit
+                try:
+                    ocr = ctx.fold.get('rgxlib.twprge', 'pp_twprge_ocr_scrub')
+                    gf_ = common.group_facts(ctx, ocr)
+                    from .c08 import ast_walk_sre
+                    accepted = set()
+                    for gname in ('twpnum', 'rgenum'):
+                        if gname in gf_:
+                            for it in gf_[gname].node:
+                                for sub in ast_walk_sre(it):
+                                    if sub[0] in rx.SINGLE:
+                                        accepted |= {ch for ch in 'SsOoIiLl]|BbZzGgqQ' if rx.char_matches(sub[0], sub[1], ch, ocr.flags)}
+                    tbl = ctx.repo.func('unpackers:ocr_scrub_alpha_to_num')
+                    mapped = {x.args[0].value for x in walk_local(tbl.node) if isinstance(x, ast.Call) and isinstance(x.func, ast.Attribute)
+                              and x.func.attr == 'replace' and x.args and isinstance(x.args[0], ast.Constant)}
+                    left = sorted(accepted - mapped)
+                    ctx.check(not left, 'EXC', f"{fi.qualname}: {norm(c)[:40]} takes digits only",
+                              'every look-alike character of the OCR pattern is converted first',
+                              f"`{norm(c)}` is no longer inside try/except ValueError, and the OCR pattern (IGNORECASE) also captures "
+                              f"{left} in its number groups, which ocr_scrub_alpha_to_num leaves as they are: "
+                              f"'T15{left[0]}N-R97W' with ocr_scrub raises ValueError out of the parse" if left else '',
+                              key=f"EXC|{fi.qualname}|int|ocr-unconverted", where=common.loc(fi, c))
+                    continue
+                except AnalysisError:
+                    pass
             ctx.shape(bool(safe), 'EXC', f"{fi.qualname}: {norm(c)[:40]} takes digits only", str(why),
                       why="neither inside try/except ValueError nor recognisably fed by a digit-only group")
     ctx.floor('int() sites', n, 6)
